@@ -103,6 +103,10 @@ def audit(pid):
     names, path = theorems_of(pid)
     problems = []
     if not names:
+        if not os.path.exists(path):
+            r = build_lean(["bsmodel"])
+            if r.returncode != 0:
+                raise Infra("lake build bsmodel failed: " + (r.stdout + r.stderr)[-2000:])
         return 0, 0, [], [f"no theorem named {pid}_* in {path}"]
     r = build_lean([f"BS.Props.{pid}", "bsmodel"])
     if r.returncode != 0:
@@ -325,7 +329,7 @@ def proj(pid, op, core):
 
 
 # which direct-oracle verdicts speak about which property
-def oracle_fails(pid, op, orc):
+def oracle_fails(pid, op, orc, op_core=None):
     """list of failure descriptions relevant to `pid` from the oracle section of an impl line"""
     out = []
 
@@ -334,6 +338,9 @@ def oracle_fails(pid, op, orc):
         return v if v is not None and v.startswith("FAIL") else None
 
     if pid == "C01":
+        # a panic of the real crate is a violation by itself, whatever the model says
+        if op_core is not None and ("panic" in op_core):
+            out.append("implementation-panics:" + op_core[:120])
         for k in ("nopanic", "cbound"):
             if bad(k):
                 out.append(f"{k}={orc[k]}")
